@@ -293,10 +293,30 @@ class Built:
     pass
 
 
-def build(unit, outdir, canary=False):
+# properties whose clauses are only part of the unit when that property itself is checked (they contain a recorded known
+# finding: a clause that fails on the current tree must not make the shared functions 'unverified' for the other properties)
+ISOLATED = ("C17",)
+
+
+def _isolate(chunks, pid):
+    def filt(text):
+        out = []
+        for l in text.split("\n"):
+            m = re.search(r"//\s*@(C\d\d)\.", l)
+            if m and m.group(1) in ISOLATED and m.group(1) != pid:
+                continue
+            out.append(l)
+        return "\n".join(out)
+    for c in chunks:
+        if isinstance(c, Region):
+            c.body = filt(c.body)
+    return [c if isinstance(c, Region) else filt(c) for c in chunks]
+
+
+def build(unit, outdir, canary=False, pid=None):
     """assemble the unit from the current tree -> Built(path, regions, text)"""
     tpath = os.path.join(CONTRACTS, unit + ".rs")
-    chunks = parse_template(tpath, unit)
+    chunks = _isolate(parse_template(tpath, unit), pid)
     regions = [c for c in chunks if isinstance(c, Region)]
     errors = []
     for r in regions:
